@@ -96,7 +96,10 @@ class IPv6FlowSpec(NLRI):
             nlri_tmp += struct.pack('!B', type_tmp) + cls.construct_operators(data[type_tmp])
 
         if len(nlri_tmp) >= 240:
-            return struct.pack('!H', len(nlri_tmp)) + nlri_tmp
+            # RFC 8955 4.1: extended length, most significant nibble 0xf
+            if len(nlri_tmp) > 0xfff:
+                raise ValueError('flow specification NLRI longer than 4095 octets')
+            return struct.pack('!H', 0xf000 | len(nlri_tmp)) + nlri_tmp
         elif nlri_tmp:
             return struct.pack('!B', len(nlri_tmp)) + nlri_tmp
 
@@ -190,7 +193,7 @@ class IPv6FlowSpec(NLRI):
                 1: 0x00,
                 2: 0x10,
                 4: 0x20,
-                6: 0x30
+                8: 0x30
             },
             'RES': 0x00,
             'LT': 0x04,
@@ -283,6 +286,11 @@ class IPv6FlowSpec(NLRI):
                 if len(hex_str) % 2 == 1:
                     hex_str = '0' + hex_str
                 value_hex = bytearray.fromhex(hex_str)
+                # operand length is 1, 2, 4 or 8 octets (RFC 8955 4.2.1.1)
+                for width in (1, 2, 4, 8):
+                    if len(value_hex) <= width:
+                        value_hex = bytearray(width - len(value_hex)) + value_hex
+                        break
                 flag_dict['LEN'] = len(value_hex)
                 opt_flag_bin = cls.construct_operator_flag(flag_dict)
                 data_bin += struct.pack('!B', opt_flag_bin)
